@@ -37,7 +37,11 @@ RULE = ("Hypothesis strategies. hist: a state machine (20-30 steps) over Spectro
         "uniform / uneven / one-narrow / binary-grid / integer-grid / almost-even (polynomial calibration, relative spread "
         "1e-9..1e-3) widths; arrays free, ascending, descending, nested, touching or duplicated, in any list order), "
         "CzernyTurnerSpectrometer (1-3 accommodated spectra, 1-40 and survey-style up to 200 pixels, also nested / "
-        "descending / duplicated entries and the doc-string parameter set) and Polychromator (1-4 TrapezoidalFilter / "
+        "descending / duplicated / overlapping entries in any order and the doc-string parameter set; diffraction angle over "
+        "the whole accepted range - acute, within 5 degrees of 90 on either side, obtuse up to 179.5 - with order 1-6, pixel "
+        "spacing 1e3-1e5 nm, focal length 1e8-5e9 nm and the grating constructed from the angle so that the documented "
+        "dispersion formula is real and positive over the layout: the narrowest pixel is the last one for acute and the "
+        "first or an inner one for obtuse angles) and Polychromator (1-4 TrapezoidalFilter / "
         "PolychromatorFilter objects, also a later filter enclosing all earlier ones, touching almost-even windows, the same "
         "filter object twice). Arguments are handed over in every accepted form: arrays as list / tuple / float64 / float32 / "
         "int64 ndarray / Python ints / strided and reversed views, outer container list or tuple, scalars as Python / numpy / "
@@ -80,8 +84,11 @@ ASSUMPTIONS = [
     "a filter's window is the one it was specified with: [min, max] of the wavelength array, centre -+ window/2 for the "
     "trapezoid (2 ulp allowed for the latter); for the polychromator 'narrowest pixel / min_bins_per_pixel' reads "
     "'narrowest filter window / min_bins_per_window'",
-    "only valid parameters are generated: Czerny-Turner sets obey 0.5*order*grating*lambda <= 0.85 cos^2(angle) over the "
-    "whole layout (resolution() real and positive); candidate setter values violating it are skipped",
+    "only valid parameters are generated: Czerny-Turner sets obey p = 0.5*order*grating*lambda <= 0.85 cos^2(angle) for "
+    "acute and <= 0.85 |cos(angle)| for obtuse angles over the whole layout (resolution() real and positive; the growth of p "
+    "over n pixels is bounded by 0.71 n spacing/focal_length); the grating is constructed from the angle, a re-alignment "
+    "sets angle and grating in the order that keeps the intermediate state valid; other candidate setter values violating "
+    "the bound are skipped; angles within 0.25 degrees of 90 are not generated (cos^2 < 2e-5 leaves no admissible grating)",
     "float32 / integer argument forms are used only for values exactly representable in that type",
 ]
 _EPS = float(np.finfo(float).eps)
@@ -122,6 +129,10 @@ REQUIRED_LABELS = (["hist:kind:spectrometer", "hist:kind:czerny", "hist:kind:pol
                     "ineq:interference", "ineq:interference:bare", "ineq:interference:before-first-use",
                     "ineq:interference:after-first-use", "ineq:repeat", "ineq:filter:repeat",
                     "calib:interference", "calib:interference:bare", "calib:repeat:sizes",
+                    "hist:ct:angle:acute", "hist:ct:angle:near90", "hist:ct:angle:obtuse",
+                    "ineq:ct:angle:acute", "ineq:ct:angle:near90", "ineq:ct:angle:obtuse",
+                    "calib:ct:angle:acute", "calib:ct:angle:near90", "calib:ct:angle:obtuse",
+                    "ineq:ct:narrowest:first", "ineq:ct:narrowest:last",
                     "ineq:kind:spectrometer", "ineq:kind:czerny", "ineq:kind:poly",
                     "ineq:arr:nested", "ineq:arr:descending", "ineq:arr:duplicate", "ineq:arr:touching", "ineq:arr:enclosing-later",
                     "ineq:widths:almost", "ineq:widths:uneven", "ineq:filter:trap", "ineq:filter:gen", "ineq:filter:same",
@@ -243,43 +254,57 @@ _call_form = st.fixed_dictionaries({"sc": st.sampled_from(["py", "np", "alt"]), 
 _acc_form = st.sampled_from(["tuple", "list", "nd", "alt"])
 
 
-def ct_resolution(p, wl):
-    """Pure-python copy of the documented resolution formula; used ONLY to keep generated parameter sets valid."""
-    th = math.radians(p["angle"])
-    mg = p["order"] * p["grating"]
-    q = 0.5 * mg * wl
-    d = math.cos(th) ** 2 - q * q
-    if d <= 0:
-        return float("nan")
-    return p["pixel_spacing"] * (math.sqrt(d) - q * math.tan(th)) / (mg * p["focal_length"])
+def ct_limit(angle):
+    """Largest p = order*grating*lambda/2 for which the documented dispersion formula
+    dx/dp (sqrt(cos^2 - p^2) - p tan) / (m fl g) is real and positive: cos^2 for acute angles (positivity), |cos| for obtuse
+    ones (the root; both terms are positive there)."""
+    c = math.cos(math.radians(angle))
+    return c * c if angle < 90.0 else abs(c)
+
+
+def _ct_t(p, n):
+    """bound of the growth of p over n pixels: resolution <= dx/dp (|cos| + |sin|) / (m g fl) <= 1.42 dx/dp / (m g fl)"""
+    return 0.71 * n * p["pixel_spacing"] / p["focal_length"]
 
 
 def ct_valid(p):
-    c2 = math.cos(math.radians(p["angle"])) ** 2
+    """every wavelength of the layout keeps p <= 0.85 * limit (generator-side guard only)"""
+    if abs(p["angle"] - 90.0) < 0.25 or not (0.0 < p["angle"] < 179.9):
+        return False
     mg = p["order"] * p["grating"]
-    for l0, n in p["acc"]:
-        if 0.5 * mg * l0 > 0.85 * c2:
-            return False
-        r0 = ct_resolution(p, l0)                 # resolution decreases with wavelength: end <= l0 + n*r0
-        if not (r0 > 0) or 0.5 * mg * (l0 + n * r0) > 0.85 * c2:
-            return False
-    return True
+    return all(0.5 * mg * l0 + _ct_t(p, n) <= 0.85 * ct_limit(p["angle"]) for l0, n in p["acc"])
 
 
-_ct_order = st.sampled_from([1, 1, 2, 3])
-_ct_angle = st.one_of(st.floats(1.0, 30.0), st.sampled_from([10.0, 1.0, 30.0]))
+def ct_grating(p, u):
+    """grating (for the order, angle, spacing, focal length and layout in p) that puts the largest p of the layout at the
+    fraction u of the admissible 0.85 * limit; None if the layout alone (pixels * spacing / focal length) exceeds it"""
+    budget = 0.85 * ct_limit(p["angle"])
+    t = max(_ct_t(p, n) for _, n in p["acc"])
+    if abs(p["angle"] - 90.0) < 0.25 or t >= 0.6 * budget:
+        return None
+    return 2.0 * u * (budget - t) / max(l0 for l0, _ in p["acc"]) / p["order"]
 
 
-def _ct_grating():
+def angle_class(a):
+    return "ct:angle:near90" if abs(a - 90.0) <= 5.0 else "ct:angle:acute" if a < 90.0 else "ct:angle:obtuse"
+
+
+_ct_order = st.sampled_from([1, 1, 2, 3, 4, 6])
+_ct_angle = st.one_of(st.floats(1.0, 85.0), st.floats(85.0, 89.5), st.floats(90.5, 95.0), st.floats(95.0, 179.5), st.floats(95.0, 179.5),
+                      st.sampled_from([10.0, 1.0, 30.0, 60.0, 100.0, 120.0, 150.0, 179.0]))
+_ct_u = st.floats(0.05, 0.98)
+
+
+def _ct_grating():        # kept for replays of old cases; new cases derive the grating from the angle (ct_grating)
     return st.one_of(_logu(1e-4, 2e-3), st.sampled_from([2e-3, 1e-3]))
 
 
 def _ct_focal():
-    return st.one_of(_logu(0.3e9, 1.5e9), st.sampled_from([1e9, 5e8]))
+    return st.one_of(_logu(1e8, 5e9), st.sampled_from([1e9, 5e8]))
 
 
 def _ct_spacing():
-    return st.one_of(_logu(0.5e4, 3e4), st.sampled_from([2e4, 1e4]))
+    return st.one_of(_logu(1e3, 1e5), st.sampled_from([2e4, 1e4]))
 
 
 @st.composite
@@ -288,9 +313,13 @@ def _ct_acc(draw):
     lam = st.one_of(st.floats(300.0, 700.0), st.integers(300, 700).map(float))
     acc = draw(st.lists(st.tuples(lam, pix).map(list), min_size=1, max_size=3))
     if len(acc) > 1:
-        how = draw(st.sampled_from(["free", "free", "nested", "nested", "descending", "duplicate"]))
+        how = draw(st.sampled_from(["free", "free", "nested", "nested", "descending", "duplicate", "overlap", "overlap"]))
         if how == "duplicate":
             acc[1] = list(acc[0])
+        elif how == "overlap":       # starts a few pixel widths apart, in any order
+            for j in range(1, len(acc)):
+                acc[j][0] = acc[0][0] + draw(st.sampled_from([-1.0, 1.0])) * draw(_logu(1e-3, 1.0))
+            acc = [acc[i] for i in draw(st.permutations(list(range(len(acc)))))]
         elif how == "descending":
             acc.sort(key=lambda x: -x[0])
         elif how == "nested":     # pixel widths are ~1e-3..1 nm: a start a fraction of a pixel later + a quarter of the pixels
@@ -307,14 +336,18 @@ def czerny_params(draw, small=False):
     if draw(st.integers(0, 11)) == 0:           # the parameter set of the class doc-string / unit tests
         return {"order": 1, "grating": 2e-3, "focal_length": 1e9, "pixel_spacing": 2e4, "angle": 10.0,
                 "acc": [[400.0, 40 if small else 64], [500.0, 32]], "mbpp": draw(_mbpp), "name": draw(_names), "preset": "docs"}
-    p = {"order": draw(_ct_order), "grating": draw(_ct_grating()), "focal_length": draw(_ct_focal()),
+    p = {"order": draw(_ct_order), "grating": None, "focal_length": draw(_ct_focal()),
          "pixel_spacing": draw(_ct_spacing()), "angle": draw(_ct_angle), "acc": draw(_ct_acc()),
          "mbpp": draw(_mbpp), "name": draw(_names)}
     if small:
         p["acc"] = [[l0, min(n, 40)] for l0, n in p["acc"]]
-    if not ct_valid(p):                          # by construction: order 1 and grating <= 1e-3 is always valid here
-        p["order"], p["grating"] = 1, min(p["grating"], 1e-3)
-    if not ct_valid(p):                          # cannot happen (0.5*P*l0 + 0.5*n*spacing/focal <= 0.36); keeps run() safe
+    # valid by construction: a focal length long enough for the layout at this angle, then the grating from the angle
+    budget = 0.85 * ct_limit(p["angle"])
+    need = 0.71 * max(n for _, n in p["acc"]) * p["pixel_spacing"] / (0.5 * budget)
+    if p["focal_length"] < need:
+        p["focal_length"] = need
+    p["grating"] = ct_grating(p, draw(_ct_u))
+    if p["grating"] is None or not ct_valid(p):      # cannot happen; keeps run() safe
         p.update(order=1, grating=2e-3, focal_length=1e9, pixel_spacing=2e4, angle=10.0, acc=[[400.0, 8]])
     return p
 
@@ -803,10 +836,10 @@ class Hist:
         "set_min_bins": _with_sc(lambda: st.one_of(st.integers(1, 30), st.sampled_from([1, 10]))),
         "set_w2p": _w2p_arg,
         "set_order": _with_sc(lambda: _ct_order),
-        "set_grating": _with_sc(_ct_grating),
+        "set_grating": lambda: st.fixed_dictionaries({"u": _ct_u, "sc": _sc_form}),
         "set_focal_length": _with_sc(_ct_focal),
         "set_pixel_spacing": _with_sc(_ct_spacing),
-        "set_angle": _with_sc(lambda: _ct_angle),
+        "set_angle": lambda: st.fixed_dictionaries({"angle": _ct_angle, "u": _ct_u, "sc": _sc_form}),
         "set_acc": lambda: st.fixed_dictionaries({"v": _ct_acc(), "f": _acc_form}),
         "set_filters": lambda: st.fixed_dictionaries({"v": _filters(), "f": st.sampled_from(["list", "tuple"])}),
         "set_invalid": lambda: st.integers(0, 59),
@@ -865,6 +898,8 @@ class Hist:
                 self.filters = build_filters(self.p["filters"])
             self.inst, self.owned = build_formed(self.kind, self.p, self.fm, self.filters)
         self.forms.update(form_labels(self.kind, self.fm))
+        if self.kind == "czerny":
+            self.flags.add(angle_class(self.p["angle"]))
         self._owned_check()
         self.exp = self._expected()
 
@@ -1051,6 +1086,45 @@ class Hist:
             self.forms.add("form:sc:" + sc)
             self._set(attr, key, value, arg_for_setter=sc_int(value, sc) if key == "order" else sc_float(value, sc))
 
+    def pre_set_grating(self):
+        return self.kind == "czerny"
+
+    def do_set_grating(self, arg):
+        """new grating chosen for the current angle / order / layout (valid by construction)"""
+        self._ensure()
+        if "v" in arg:                      # cases recorded before the angle range was widened
+            return self._set_ct("grating", "grating", arg)
+        g = ct_grating(self.p, arg["u"])
+        if g is None:
+            self.n_skipped += 1
+            return
+        self.forms.add("form:sc:" + arg["sc"])
+        self._set("grating", "grating", g, arg_for_setter=sc_float(g, arg["sc"]))
+
+    def pre_set_angle(self):
+        return self.kind == "czerny"
+
+    def do_set_angle(self, arg):
+        """re-alignment: a new diffraction angle anywhere in (0, 180) together with a grating that keeps the documented
+        formula real for it; the two setters are called in the order that keeps the intermediate state valid too"""
+        self._ensure()
+        if "v" in arg:
+            return self._set_ct("diffraction_angle", "angle", arg)
+        trial = dict(self.p)
+        trial["angle"] = arg["angle"]
+        g = ct_grating(trial, arg["u"])
+        if g is None:
+            self.n_skipped += 1
+            return
+        sc = arg["sc"]
+        self.forms.add("form:sc:" + sc)
+        steps = [("grating", "grating", g), ("diffraction_angle", "angle", arg["angle"])]
+        if g >= self.p["grating"]:          # a larger p is admissible only under the new angle
+            steps.reverse()
+        for attr, key, v in steps:
+            self._set(attr, key, v, arg_for_setter=sc_float(v, sc))
+        self.flags.add(angle_class(arg["angle"]))
+
     def pre_set_filters(self):
         return self.kind == "poly"
 
@@ -1221,9 +1295,9 @@ def _install_ct():
     for kind in ("spectrometer", "czerny", "poly"):
         setattr(Hist, "do_other_" + kind, _do_other)
         setattr(Hist, "pre_other_" + kind, (lambda self, kind=kind: self.kind == kind))
-    for op, attr, key in (("set_order", "diffraction_order", "order"), ("set_grating", "grating", "grating"),
+    for op, attr, key in (("set_order", "diffraction_order", "order"),
                           ("set_focal_length", "focal_length", "focal_length"), ("set_pixel_spacing", "pixel_spacing", "pixel_spacing"),
-                          ("set_angle", "diffraction_angle", "angle"), ("set_acc", "accommodated_spectra", "acc")):
+                          ("set_acc", "accommodated_spectra", "acc")):
         setattr(Hist, "do_" + op, (lambda self, arg, attr=attr, key=key: self._set_ct(attr, key, arg)))
         setattr(Hist, "pre_" + op, (lambda self: self.kind == "czerny"))
 
@@ -1339,6 +1413,13 @@ def run_ineq(case, ctx):
         ctx.label("excluded_known")
     wc = width_class(cells)
     ctx.label("widths:" + wc)
+    if kind == "czerny":
+        ctx.label(angle_class(p["angle"]))
+        for e in a.wavelength_to_pixel:
+            d = np.diff(np.asarray(e, dtype=float))
+            if d.size >= 3:
+                k = int(np.argmin(d))
+                ctx.label("ct:narrowest:" + ("first" if k == 0 else "last" if k == d.size - 1 else "inner"))
     ctx.nt(wc != "even")
 
 
@@ -1452,7 +1533,7 @@ def run_calib(case, ctx):
     with ctx.cut("construct"):
         if lay["kind"] == "czerny":
             inst = build("czerny", lay["p"])
-            ctx.label("layout:czerny")
+            ctx.label("layout:czerny", angle_class(lay["p"]["angle"]))
         else:
             bare = lay["mbpp"] == 1          # every default left to default
             inst = Spectrometer(tuple(list(e) for e in lay["w2p"])) if bare else Spectrometer(tuple(list(e) for e in lay["w2p"]), lay["mbpp"])
